@@ -7,7 +7,10 @@
 //!          (darklua's own glob engine, through the hook `verif_hooks::filter_pattern_matches`)
 //!   {"tree": {path: content, ...}}
 //!       -> {"tree": n}      sets the file tree used by the following jobs
-//!   {"id": n, "config": "<text of .darklua.json>", "input": "src", "output": null | "out"}
+//!   {"id": n, "config": "<text of .darklua.json>", "input": "src", "output": null | "out",
+//!    "config_name": path the text is written to (default ".darklua.json", found by darklua on its own only there),
+//!    "config_at": true -> Options::with_configuration_at(config_name),
+//!    "config_memory": true -> the text is parsed here and given with Options::with_configuration (no file)}
 //!       -> {"id": n, "ok": bool, "errors": [..], "panic": bool, "files": {path: content}}
 //!          a fresh `Resources::from_memory()` is filled with the tree and the configuration file,
 //!          `darklua_core::process` is run, and every file present afterwards is reported.
@@ -30,11 +33,14 @@ fn run_job(tree: &BTreeMap<String, String>, job: &Value) -> Value {
         .unwrap_or(".darklua.json")
         .to_owned();
 
+    let config_at = job.get("config_at").and_then(Value::as_bool).unwrap_or(false);
+    let config_memory = job.get("config_memory").and_then(Value::as_bool).unwrap_or(false);
+
     let resources = Resources::from_memory();
     for (path, content) in tree {
         resources.write(path, content).expect("memory write");
     }
-    if let Some(config) = &config {
+    if let (Some(config), false) = (&config, config_memory) {
         resources.write(&config_name, config).expect("memory write");
     }
 
@@ -42,6 +48,15 @@ fn run_job(tree: &BTreeMap<String, String>, job: &Value) -> Value {
         let mut options = Options::new(&input);
         if let Some(output) = &output {
             options = options.with_output(output);
+        }
+        if config_at {
+            options = options.with_configuration_at(&config_name);
+        }
+        if config_memory {
+            match json5::from_str::<darklua_core::Configuration>(config.as_deref().unwrap_or("{}")) {
+                Ok(configuration) => options = options.with_configuration(configuration),
+                Err(err) => return (false, vec![format!("configuration: {}", err)]),
+            }
         }
         match process(&resources, options) {
             Ok(worker_tree) => {
